@@ -25,23 +25,32 @@ Rtake(h) == << O("take", h), O("deref", 0), O("unlock", h) >>
 \* slot recycled: released, created again by somebody else
 Rrecycle(h, g) == << O("create", h), O("lock", h), O("unlock", h), O("release", h), O("create", g) >> \o Racc(g)
 
-\* --- weak-memory families (Stale = TRUE): 2 readers / 2 accessors + 1 writer
-Cfg_wm_tl == { Cfg(<< Rtl, Rtl, W1 >>, 2, 0, 0) }
-Cfg_wm_acc == { Cfg(<< Racc(1), Racc(2), W1 >>, 2, 2, 2) }
-Cfg_wm_2obj == { Cfg(<< Rtl, W2 >>, 1, 0, 0), Cfg(<< Racc(1), W2 >>, 1, 1, 1) }
-Cfg_wm_misc == { Cfg(<< Rnest(1), W1 >>, 1, 1, 1), Cfg(<< Rgive(1), Rtake(1), W1 >>, 1, 1, 1), Cfg(<< Rcr(1), W1 >>, 1, 1, 0) }
-Cfg_wm == Cfg_wm_tl \cup Cfg_wm_acc \cup Cfg_wm_2obj \cup Cfg_wm_misc
+\* --- single families
+F_tl2 == { Cfg(<< Rtl, Rtl, W1 >>, 2, 0, 0) }
+F_tl2w2 == { Cfg(<< Rtl, Rtl, W2 >>, 2, 0, 0) }
+F_acc2 == { Cfg(<< Racc(1), Racc(2), W1 >>, 2, 2, 2) }
+F_acc2w2 == { Cfg(<< Racc(1), Racc(2), W2 >>, 2, 2, 2) }
+F_tl1w2 == { Cfg(<< Rtl, W2 >>, 1, 0, 0) }
+F_acc1w2 == { Cfg(<< Racc(1), W2 >>, 1, 1, 1) }
+F_tl1 == { Cfg(<< Rtl, W1 >>, 1, 0, 0) }
+F_acc1 == { Cfg(<< Racc(1), W1 >>, 1, 1, 1) }
+F_nest == { Cfg(<< Rnest(1), W1 >>, 1, 1, 1) }
+F_nestw2 == { Cfg(<< Rnest(1), W2 >>, 1, 1, 1) }
+F_nest2 == { Cfg(<< Rnest(1), Racc(2), W1 >>, 2, 2, 2) }
+F_move == { Cfg(<< Rgive(1), Rtake(1), W1 >>, 1, 1, 1) }
+F_movew2 == { Cfg(<< Rgive(1), Rtake(1), W2 >>, 1, 1, 1) }
+F_cr1 == { Cfg(<< Rcr(1), W1 >>, 1, 1, 0) }
+F_cr2 == { Cfg(<< Rcr(1), Rcr(2), W1 >>, 2, 2, 0) }
+F_recycle == { Cfg(<< Rrecycle(1, 2), Rcr(3), W1 >>, 2, 3, 0) }
+F_relock == { Cfg(<< Rtl \o Rtl, W2 >>, 1, 0, 0), Cfg(<< Racc(1) \o Racc(1), W2 >>, 1, 1, 1) }
 
+\* --- weak-memory families (Stale = TRUE): 2 readers / 2 accessors + 1 writer, 2 objects
+Cfg_wm_q == F_tl1 \cup F_acc1 \cup F_nest \cup F_move \cup F_cr1
+Cfg_wm == Cfg_wm_q \cup F_tl2 \cup F_acc2 \cup F_tl1w2 \cup F_acc1w2 \cup F_relock
 \* --- interleaving families (Stale = FALSE)
-Cfg_sc == { Cfg(<< Rtl, Rtl, W2 >>, 2, 0, 0),
-            Cfg(<< Racc(1), Racc(2), W2 >>, 2, 2, 2),
-            Cfg(<< Rcr(1), Rcr(2), W1 >>, 2, 2, 0),
-            Cfg(<< Rnest(1), Racc(2), W1 >>, 2, 2, 2),
-            Cfg(<< Rnest(1), W2 >>, 1, 1, 1),
-            Cfg(<< Rgive(1), Rtake(1), W2 >>, 1, 1, 1),
-            Cfg(<< Rrecycle(1, 2), Rcr(3), W1 >>, 2, 3, 0) }
-
-Cfg_dbg == { Cfg(<< Rrecycle(1, 2), Rcr(3), W1 >>, 2, 3, 0) }
+Cfg_sc_q == F_tl2 \cup F_acc1w2 \cup F_nestw2 \cup F_move \cup F_cr1
+Cfg_sc == Cfg_sc_q \cup F_tl2w2 \cup F_acc2w2 \cup F_cr2 \cup F_nest2 \cup F_movew2 \cup F_recycle \cup F_relock
+Cfg_dbg == F_relock
 
 Next == \/ \E t \in Thr : Step(t, MOf)
         \/ (AllDone /\ UNCHANGED vars)
